@@ -175,25 +175,52 @@ int main(int argc, char** argv) {
                << ",\"got\":" << (hit ? ent.getScore(q) : 0) << "}\n";
             n++;
         }
-        // tablebase region isolation
-        for (int round = 0; round < 2; round++) {
+        // tablebase region isolation: bytes of the reserved region AND the answers of the resident table before / after hash traffic
+        // (3-man tables and a 4-man table, which fills the whole reserved region; table sizes of an even and an odd number of MB)
+        for (int round = 0; round < 4; round++) {
             TranspositionTable t2(512);
-            t2.reSize(round == 0 ? (1 << 20) : (1 << 19) + 4096);
+            t2.reSize(round == 0 ? (1 << 20) : round == 1 ? (1 << 19) + 4096 : round == 2 ? (1 << 20) : (1 << 19) + (1 << 16));
             RelaxedShared<S64> lim(-1);
-            Position p = TextIO::readFEN(round == 0 ? "8/8/8/3k4/8/3K4/4Q3/8 w - - 0 1" : "8/8/8/3k4/8/3K4/4R3/8 b - - 0 1");
+            const char* rootFen = round == 0 ? "8/8/8/3k4/8/3K4/4Q3/8 w - - 0 1" : round == 1 ? "8/8/8/3k4/8/3K4/4R3/8 b - - 0 1" : "8/1r6/8/3k4/8/3K4/4Q3/8 w - - 0 1";
+            Position p = TextIO::readFEN(rootFen);
             bool ok = t2.updateTB(p, lim);
             auto st = t2.verifState();
             U64 bytes = t2.byteSize();
             U64 tbBytes = 5 * 1024 * 1024;
             auto checksum = [&]() { U64 h = 1469598103934665603ULL; for (U64 i = bytes - tbBytes; i < bytes; i++) { h ^= t2.getByte(i); h *= 1099511628211ULL; } return h; };
+            // sample of positions of the table's class (same men as the root on random squares)
+            std::vector<Position> sample;
+            std::vector<int> men;
+            for (int sq = 0; sq < 64; sq++) if (p.getPiece(Square(sq)) != Piece::EMPTY) men.push_back(p.getPiece(Square(sq)));
+            for (int t = 0; t < 40000 && sample.size() < 3000; t++) {
+                Position q;
+                bool clash = false;
+                std::set<int> used;
+                for (int m : men) { int sq = rnd.nextInt(64); if (used.count(sq)) { clash = true; break; } used.insert(sq); q.setPiece(Square(sq), m); }
+                if (clash) continue;
+                q.setWhiteMove(rnd.nextInt(2) == 0);
+                if (BitBoard::getKingDistance(q.wKingSq(), q.bKingSq()) < 2) continue;
+                { Position c(q); c.setWhiteMove(!q.isWhiteMove()); if (MoveGen::inCheck(c)) continue; }
+                sample.push_back(q);
+            }
+            auto answers = [&]() { std::vector<int> v; for (const Position& q : sample) { int sc = 0; bool f = t2.probeDTM(q, 0, sc); v.push_back(f ? sc : 99999); } return v; };
             U64 before = checksum();
+            std::vector<int> ansBefore = answers();
             for (int i = 0; i < 6000000; i++) {
                 Move mv(Square(rnd.nextInt(64)), Square(rnd.nextInt(64)), 0);
                 mv.setScore(rnd.nextInt(1000));
-                t2.insert(rnd.nextU64(), mv, 1 + rnd.nextInt(3), 0, rnd.nextInt(50), 0);
+                U64 key = rnd.nextU64();
+                t2.insert(key, mv, 1 + rnd.nextInt(3), 0, rnd.nextInt(50), 0);
+                if ((i & 7) == 0) { TranspositionTable::TTEntry e; t2.probe(key, e); }      // probes refresh the generation (a store)
                 if ((i & 0xfffff) == 0) t2.nextGeneration();
             }
             U64 after = checksum();
+            std::vector<int> ansAfter = answers();
+            long changed = 0, found = 0;
+            for (size_t i = 0; i < sample.size(); i++) { if (ansBefore[i] != ansAfter[i]) changed++; if (ansBefore[i] != 99999) found++; }
+            if (changed) before = after + 1;        // reported through the same flag
+            os << "{\"e\":\"TbAnswers\",\"sampled\":" << sample.size() << ",\"answeredBefore\":" << found << ",\"changed\":" << changed << "}\n";
+            n++;
             os << "{\"e\":\"TbRegion\",\"built\":" << (ok ? "true" : "false") << ",\"same\":" << (before == after ? "true" : "false") << ",\"usedSize\":" << st.usedSize
                << ",\"tableSize\":" << st.tableSize << ",\"tbEntries\":" << (tbBytes / 16) << "}\n";
             n++;
